@@ -42,6 +42,17 @@ def passing_tests(wt):
     return ok
 
 
+def aggregate():
+    resd = os.path.join(VERIF, 'seeded', 'results')
+    allr = []
+    for f in sorted(os.listdir(resd)):
+        try:
+            allr.append(json.load(open(os.path.join(resd, f))))
+        except Exception:
+            pass
+    json.dump(allr, open(os.path.join(VERIF, 'seeded', 'RESULTS.json'), 'w'), indent=1)
+
+
 def main():
     seed = os.path.abspath(sys.argv[1])
     args = sys.argv[2:]
@@ -103,11 +114,10 @@ def main():
         rec['detected'] = any(v['exit'] == 1 for v in rec['checks'].values())
     finally:
         sh('git -C /repo worktree remove --force %s' % wt)
-    resf = os.path.join(VERIF, 'seeded', 'RESULTS.json')
-    os.makedirs(os.path.dirname(resf), exist_ok=True)
-    allr = json.load(open(resf)) if os.path.exists(resf) else []
-    allr = [r for r in allr if r.get('seed') != sid] + [rec]
-    json.dump(sorted(allr, key=lambda r: r['seed']), open(resf, 'w'), indent=1)
+    resd = os.path.join(VERIF, 'seeded', 'results')
+    os.makedirs(resd, exist_ok=True)
+    json.dump(rec, open(os.path.join(resd, sid + '.json'), 'w'), indent=1)
+    aggregate()
     print(json.dumps({k_: rec[k_] for k_ in ('seed', 'confirmed', 'detected')}), {p: (v['exit'], v['violated'][:1]) for p, v in rec['checks'].items()})
 
 
